@@ -11,6 +11,7 @@
 -/
 import PyTealV
 import PyTealV.Cmd
+import PyTealV.Check.Validate
 open PyTealV PyTealV.Avm
 
 structure DState where
@@ -91,6 +92,13 @@ def handle (st : DState) (line : String) : DState × String :=
       | some false => (st, "differ " ++ Compare.showOutcome true a ++ " ## " ++ Compare.showOutcome true b)
       | none => (st, "skip " ++ Compare.clsName (Compare.cls a) ++ "/" ++ Compare.clsName (Compare.cls b))
     | _, _, _, _ => (st, "perr unknown id")
+  | ["validate", pid, tid, ver] =>
+    match lookup st.progs pid, lookup st.teals tid, Util.parseNat ver with
+    | some sp, some tp, some v =>
+      (match Check.validateMain v sp.main tp with
+       | .ok r => (st, s!"valid rel={r.relSize} blocks={r.blocks} slots={r.bindings.length}")
+       | .error e => (st, "invalid " ++ (e.replace "\n" " ")))
+    | _, _, _ => (st, "perr unknown id")
   | cmd :: args =>
     match Cmd.dispatch cmd args with
     | some ans => (st, ans)
